@@ -10,7 +10,7 @@ C18DIR = os.path.join(core.ROOT, "props", "C18")
 def harness_for(op):
     w = op.split()[0]
     if w == "hs":
-        return core.build_harness("C18hs", "asan", sources=[os.path.join(C18DIR, "hs_harness.c")], extra="-I%s -no-pie" % C18DIR)
+        return core.build_harness("C18hs", "asan", sources=[os.path.join(C18DIR, "hs_harness.c")], extra="-I%s -no-pie -Wl,--wrap=tls_pre_master_secret_generate" % C18DIR)
     if w in ("ur", "urkey"):
         return core.build_harness("C18ur", "asan", sources=[os.path.join(C18DIR, "ur_harness.c"), os.path.join(core.REPO, "src", "rand.c")],
                                   extra="-Wl,--wrap=fopen,--wrap=fread,--wrap=fclose")
